@@ -11,7 +11,8 @@
  *   m cpy <n> <size>[,<size>...] mpt_memcpy(n, current fragments, fresh target fragments of the given sizes)
  *   m argv <sep-hex>             mpt_message_argv
  *   m args <sep-hex> [nomem]     mpt_array_message (nomem: the first allocation inside the call fails)
- *   m append <prefix-hex>        mpt_message_append to an array holding the prefix
+ *   m append <prefix-hex> [nomem:<k>]   mpt_message_append to an array holding the prefix (the k-th allocation inside
+ *                                the call fails)
  *   m qget <max> <off> <fill-hex> <pos> <take> [novec]   mpt_message_get on a queue (novec: no iovec for a second part);
  *                                the result becomes the message
  */
@@ -30,10 +31,12 @@ static MPT_STRUCT(message) msg;
 static void *qstore;
 
 /* allocation failure injection: the library's malloc calls are routed here (-Wl,--wrap=malloc) */
+static int nmalloc;
 static int fail_malloc;     /* > 0: the fail_malloc-th call from now on returns NULL */
 extern void *__real_malloc(size_t);
 void *__wrap_malloc(size_t n)
 {
+	++nmalloc;
 	if (fail_malloc > 0 && !--fail_malloc) return 0;
 	return __real_malloc(n);
 }
@@ -281,17 +284,23 @@ int main(void)
 			tail(code);
 			mpt_array_clone(&arr, 0);
 		}
-		else if (!strcmp(op, "append") && drv_nw == 3) {
+		else if (!strcmp(op, "append") && (drv_nw == 3 || (drv_nw == 4 && !strncmp(drv_w[3], "nomem:", 6)))) {
+			size_t failat = 0;
+			if (drv_nw == 4 && (drv_parse_nat(drv_w[3] + 6, &failat) || !failat || failat > 64)) { puts("bad-op"); continue; }
 			if (drv_parse_data(drv_w[2], &dat, &dlen, &isnull) || isnull) { puts("bad-op"); free(dat); continue; }
 			MPT_STRUCT(array) arr = MPT_ARRAY_INIT;
 			if (dlen && !mpt_array_append(&arr, dlen, dat)) { puts("R setup-failed"); free(dat); continue; }
 			free(dat);
 			before();
+			nmalloc = 0;
+			fail_malloc = failat;
 			int r = mpt_message_append(&arr, &msg);
-			char code[32];
+			fail_malloc = 0;
+			char code[48];
 			snprintf(code, sizeof(code), "%d", r);
 			if (r >= 0) printf("R ret=%d out=", r); else printf("R ret=%s out=", drv_errname(r));
 			put_array(&arr);
+			snprintf(code, sizeof(code), "%d allocs=%d", r, nmalloc);
 			tail(code);
 			mpt_array_clone(&arr, 0);
 		}
